@@ -1,6 +1,7 @@
 ---------------------------- MODULE WkbStream_Trace ----------------------------
 (* Trace validation for C01 (streams): the real wkb / ewkb Encoder and Decoder over one byte pipe against the      *)
-(* stream model.  Events: reset (new encoder, decoder and pipe; tab = coordinate table of the whole history),       *)
+(* stream model.  Events: reset (new encoder, decoder and pipe; tab = coordinate table of the whole history; dsrid =  *)
+(* the package's DefaultSRID when the encoder was created),                                                          *)
 (* order / srid (encoder settings), enc (geometry, explicit SRID or -1, the bytes that reached the pipe, whether    *)
 (* Encode reported an error, pipe length afterwards), dec (result class, value, SRID, pipe length afterwards).      *)
 (* The spec state s follows the model, so one wrong step shows up where it happens; after the model's pipe holds a  *)
@@ -21,7 +22,7 @@ Init == l = 1 /\ s = S0(0) /\ tab = <<>> /\ dead = FALSE /\ bad = {}
 Next == /\ l <= Len(Trace) /\ l' = l + 1
         /\ LET e == Trace[l] IN
            IF e.k # "ws" THEN UNCHANGED <<s, tab, dead>> /\ bad' = bad \cup {l}
-           ELSE IF e.op = "reset" THEN s' = S0(IF e.pkg = "ewkb" THEN 4326 ELSE 0) /\ tab' = e.tab /\ dead' = FALSE /\ bad' = bad
+           ELSE IF e.op = "reset" THEN s' = S0(e.dsrid) /\ tab' = e.tab /\ dead' = FALSE /\ bad' = bad
            ELSE IF dead THEN UNCHANGED <<s, tab, dead>> /\ bad' = bad
            ELSE IF e.op = "order" THEN s' = SetOrder(s, e.le = 1) /\ UNCHANGED <<tab, dead>> /\ bad' = bad
            ELSE IF e.op = "srid" THEN s' = SetSrid(s, e.srid) /\ UNCHANGED <<tab, dead>> /\ bad' = bad
